@@ -250,7 +250,14 @@ impl Report {
     /// Append to an array-valued table (creates it when missing).
     pub fn table_push(&mut self, key: &str, v: Value) {
         match self.tables.get_mut(key) {
-            Some(Value::Array(a)) => a.push(v),
+            Some(Value::Array(a)) => {
+                // keep evidence files readable: at most 250 rows per table
+                if a.len() < 250 {
+                    a.push(v);
+                } else {
+                    self.count_n(&format!("{key}:rows-omitted-from-evidence"), 1);
+                }
+            }
             _ => {
                 self.tables.insert(key.to_string(), Value::Array(vec![v]));
             }
@@ -307,7 +314,15 @@ impl Report {
         }
         for (k, v) in other.tables {
             match (self.tables.get_mut(&k), v) {
-                (Some(Value::Array(a)), Value::Array(b)) => a.extend(b),
+                (Some(Value::Array(a)), Value::Array(b)) => {
+                    for x in b {
+                        if a.len() < 250 {
+                            a.push(x);
+                        } else {
+                            *self.counters.entry(format!("{k}:rows-omitted-from-evidence")).or_insert(0) += 1;
+                        }
+                    }
+                }
                 (_, v) => {
                     self.tables.insert(k, v);
                 }
